@@ -93,7 +93,9 @@ def judgeUpdate (st : DState) (s0 s1 : KState) (to : List Key) : Option String :
              let fin := idxIn to k
              (idxIn frm k != fin && calls.isEmpty) || (calls.getLast?.any (·.2 != fin)))) then some "set-index" else
   if !domOrderOk st s1 then
-    some (if st.tainted || !settledMonotone frm to then "dom-order-move-elided" else "dom-order")
+    -- `settledMonotone diff` holds for all duplicate-free sequences since the repair of F-C11-1
+    -- (`C11_settled_monotone`); the class word is kept so that a regression would be named
+    some (if st.tainted || !settledMonotone diff frm to then "dom-order-move-elided" else "dom-order")
   else none
 
 def finish (st : DState) (s : KState) (v : Option String) : DState × String :=
